@@ -246,19 +246,21 @@ func (s GenericSet) Map(f func(v Value) (Value, error)) (Set, error) {
 }
 
 // Where returns a new genericSet with all the Values satisfying predicate p.
-func (s GenericSet) Where(p func(v Value) (bool, error)) (_ Set, err error) {
+func (s GenericSet) Where(p func(v Value) (bool, error)) (Set, error) {
+	// The callback may run on several goroutines at once.
+	var failure firstError
 	set := s.set.Where(func(elem Value) bool {
-		if err != nil {
+		if failure.get() != nil {
 			return false
 		}
-		match, err2 := p(elem)
-		if err2 != nil {
-			err = err2
+		match, err := p(elem)
+		if err != nil {
+			failure.set(err)
 			return false
 		}
 		return match
 	})
-	if err != nil {
+	if err := failure.get(); err != nil {
 		return nil, err
 	}
 	return newSetFromFrozenSet(set), nil
